@@ -1021,6 +1021,81 @@ func c12Hist(args []string) error {
 			}
 			scenario(classes, counts, extra, rnd.Intn(3))
 		}
+		// Shrink-and-clear scenarios: a table that has grown to several buckets is emptied down to a few live keys
+		// (or refilled with a few after a first clear) and cleared; none of the old keys may remain findable, and
+		// re-inserted keys are new keys.
+		shrink := func(total, keep int, twice bool, mul uint32) {
+			d = starlark.NewDict(0)
+			emit(0, 0, 0, []int{})
+			keys := make([]hkey, total)
+			for i := range keys {
+				keys[i] = hkey{i + 1, uint32(i+1) * mul}
+			}
+			for i, k := range keys {
+				d.SetKey(k, starlark.MakeInt(i))
+				emit(1, k.id, i, []int{})
+			}
+			lookups := func() {
+				for i, k := range keys {
+					forceOrder = i == len(keys)-1
+					v, found, _ := d.Get(k)
+					if found {
+						emit(5, k.id, 0, []int{intOf(v)})
+					} else {
+						emit(5, k.id, 0, []int{})
+					}
+				}
+				forceOrder = false
+			}
+			if twice {
+				d.Clear()
+				emit(4, 0, 0, []int{})
+				for i := 0; i < keep; i++ {
+					k := keys[rnd.Intn(total)]
+					d.SetKey(k, starlark.MakeInt(500+i))
+					emit(1, k.id, 500+i, []int{})
+				}
+			} else {
+				perm := rnd.Perm(total)
+				for _, j := range perm[:total-keep] {
+					v, found, _ := d.Delete(keys[j])
+					if found {
+						emit(2, keys[j].id, 0, []int{intOf(v)})
+					} else {
+						emit(2, keys[j].id, 0, []int{})
+					}
+				}
+			}
+			d.Clear()
+			emit(4, 0, 0, []int{})
+			lookups()
+			for i := 0; i < 4 && i < total; i++ {
+				k := keys[total-1-i]
+				d.SetKey(k, starlark.MakeInt(900+i))
+				forceOrder = true
+				emit(1, k.id, 900+i, []int{})
+				forceOrder = false
+			}
+			lookups()
+			v, found, _ := d.Delete(keys[total-1])
+			if found {
+				emit(2, keys[total-1].id, 0, []int{intOf(v)})
+			} else {
+				emit(2, keys[total-1].id, 0, []int{})
+			}
+			lookups()
+		}
+		for _, total := range []int{9, 14, 20, 27, 40, 60, 120} {
+			for _, keep := range []int{0, 1, 2, 3, 5, 8} {
+				if keep >= total {
+					continue
+				}
+				for _, mul := range []uint32{1, 2654435761, 64} {
+					shrink(total, keep, false, mul)
+					shrink(total, keep, true, mul)
+				}
+			}
+		}
 	}
 	fmt.Fprintf(os.Stderr, "logged %d events\n", ev)
 	return nil
